@@ -129,6 +129,53 @@ def rule_r1(ck, prog, cls, ty='double', rule='C07.R1'):
                'Aggregate has an early return: values recorded on that path are missing from count, sum or the buckets')
 
 
+def _comparator_in_double(prog, f, arg):
+    """None when the comparator is `(double b, T v) { return b < v; }` with no conversion of b away from double."""
+    lam = None
+    for i in f.subtree(arg):
+        if f.nodes[i]['k'] == 'lambda':
+            lam = f.nodes[i]
+    if lam is None or lam.get('fn') not in prog.funcs:
+        return ('I', 'the bucket search takes a comparator that is not a lambda in place: not analysed')
+    lf = prog.funcs[lam['fn']]
+    rets = [n for n in lf.nodes if n['k'] == 'return']
+    if len(rets) != 1 or len(lf.params) != 2:
+        return ('I', 'comparator shape not recognised (one return over two parameters expected)')
+    e = lf.nodes[rets[0]['e']]
+    while e['k'] in ('cast', 'paren') and e.get('e', -1) >= 0 and lf.nodes[e['e']]['k'] != 'ref':
+        e = lf.nodes[e['e']]
+    if e['k'] != 'binop' or e['op'] != '<':
+        return ('V', 'the comparator of the bucket search is not `boundary < value`: values equal to a boundary change bucket')
+    def side(i):
+        """(param index, types the parameter is converted through)"""
+        n = lf.nodes[i]
+        conv = []
+        while n['k'] in ('cast', 'paren', 'construct') :
+            if n['k'] == 'cast':
+                conv.append(n['t'])
+            sub = n.get('e') if n['k'] != 'construct' else (n['args'][0] if len(n.get('args', [])) == 1 else None)
+            if sub is None or sub < 0:
+                break
+            n = lf.nodes[sub]
+        if n['k'] != 'ref':
+            return None, conv
+        for k, p in enumerate(lf.params):
+            if p['id'] == n.get('id'):
+                return k, conv
+        return None, conv
+    l, lconv = side(e['lhs'])
+    r, rconv = side(e['rhs'])
+    if l != 0 or r != 1:
+        return ('V', 'the comparator of the bucket search does not compare (boundary, value) in that order')
+    bad = [t for t in lconv if t.replace('const ', '') not in ('double', 'long double')]
+    if bad:
+        return ('V', 'the comparator converts the boundary to %s before comparing: boundaries >= 2^63 (1e19, +Inf) are out of range for the '
+                     'conversion and fractional boundaries are truncated, so a value lands in the wrong bucket' % bad[0])
+    if not any(t.replace('const ', '') in ('double', 'long double') for t in rconv) and lf.params[1]['t'].replace('const ', '') not in ('double', 'long double'):
+        return ('V', 'the comparator does not compare in double')
+    return None
+
+
 def rule_r2(ck, prog, rule='C07.R2'):
     fs = prog.functions('sdk::metrics::BucketBinarySearch')
     if not fs:
@@ -146,6 +193,13 @@ def rule_r2(ck, prog, rule='C07.R2'):
             continue
         names = [strip_targs(f.nodes[i].get('c', '')).rsplit('::', 1)[-1] for arg in a['args'][:2] for i in f.subtree(arg) if f.nodes[i]['k'] == 'call']
         ok = names[:1] == ['begin'] and 'end' in names and strip_casts(f, a['args'][2]).get('id') == f.params[0]['id']
+        if ok and len(a['args']) > 3:
+            # an explicit comparator: it has to be `boundary < value` evaluated in double (the order the statement is written in);
+            # converting the boundary to the value's type is out of range for boundaries >= 2^63 and truncates fractional ones
+            why = _comparator_in_double(prog, f, a['args'][3])
+            if why is not None:
+                (ck.violation if why[0] == 'V' else ck.inconclusive)(rule, f, site, a, why[1])
+                continue
         rets = [n for n in f.nodes if n['k'] == 'return']
         if ok and rets:
             r = strip_casts(f, rets[0]['e'])
